@@ -493,15 +493,35 @@ pub fn cache_only_case(seed: u64, l: &mut Local) {
     w.set_ip_check_interval(h, 1);
     let t0 = w.now();
     let ty = "_quiet._udp.local.";
-    if rng.chance(1, 3) {
+    // sometimes the cache already holds an instance of the type that is found but not resolved (unsolicited
+    // records are accepted and a PTR, or PTR and SRV, arrived before): the cache-only browse starts on it
+    let precached = rng.chance(1, 3);
+    if precached || rng.chance(1, 3) {
         w.accept_unsolicited(h, true);
     }
-    let Some(_chan) = w.browse_cache(h, ty) else { return };
-    w.run_until(t0 + 5500);
     let mut s = scen::Svc::new(ty, "told", "told-host.local", [10, 0, 0, 35]);
     s.ttl_ptr = *rng.pick(&[4u32, 10, 4500]);
     s.ttl_srv = *rng.pick(&[4u32, 10, 120]);
     s.ttl_addr = s.ttl_srv;
+    let mut desc = String::from("cache-only:");
+    if precached {
+        s.ttl_ptr = 4500;
+        s.ttl_srv = 120;
+        w.run_until(t0 + 100 + rng.below(300));
+        let mut m = wire::Message::response();
+        m.answers.push(s.ptr());
+        if rng.chance(1, 2) {
+            m.answers.push(s.srv());
+            m.answers.push(s.txt());
+            desc.push_str(" cached-before:ptr+srv+txt");
+        } else {
+            desc.push_str(" cached-before:ptr");
+        }
+        w.inject_msg(h, 2, scen::peer4(35), &m);
+        w.run_until(t0 + 600 + rng.below(300));
+    }
+    let Some(_chan) = w.browse_cache(h, ty) else { return };
+    w.run_until(t0 + 5500);
     let mut events: Vec<(u64, u8)> = vec![(5600 + rng.below(500), 0)];
     if rng.chance(2, 3) {
         events.push((6200 + rng.below(1500), 1));
@@ -513,7 +533,6 @@ pub fn cache_only_case(seed: u64, l: &mut Local) {
         events.push((8000 + rng.below(2000), 3));
     }
     events.sort();
-    let mut desc = String::from("cache-only:");
     for (t, k) in events {
         w.run_until(t0 + t);
         let mut m = wire::Message::response();
